@@ -73,7 +73,7 @@ func (S) Level() string { return "exploration" }
 func (S) Info() scen.Info {
 	return scen.Info{
 		Rule: "unit = one seeded history: 1-3 interleaved clients, each applying 3-8 transforms in sequence to its own evolving root over one shared store (graphs of 1-6 blocks with shared links): FocusedTransform replace / delete from map / delete from list / insert missing map key / list append / create parents on or off / identity / target below one or more links / error cases, and WalkTransforming with a seeded selector on link-free roots; a second profile injects read / open / write / commit faults on the blocks a transform touches. " +
-			"distinct_nontrivial counts distinct hash(sequence of (transform kind, path depth, links crossed, outcome)) over histories with at least one successful transform below a link or a sequence of >=3 successful transforms.",
+			"distinct_nontrivial counts distinct hash(sequence of (transform kind, path depth, links crossed, outcome)) over histories with at least one successful transform below a link or a sequence of >=3 successful transforms. Later additions: WalkTransforming across links judged on content (loader skipping links, visit-once), specific prototype choosers, read-back of every focused transform through Get and Focus, redirect blocks.",
 		DistinctSet: "history",
 		Assumptions: []string{
 			"LinkSystem.Load is used as an instrument to expand graphs; block hashing is re-checked independently",
